@@ -109,7 +109,15 @@ fn mix(h: u64, seed: u64) -> u64 {
 impl Cx {
     pub fn new(property: &str, tier: Tier, level: &str, root: PathBuf) -> Cx {
         let seed = std::env::var("VERIF_SEED").ok().and_then(|s| s.parse::<u64>().ok()).unwrap_or(0);
-        let findings = load_findings(&root.join("known_findings.json"));
+        let mut findings = load_findings(&root.join("known_findings.json"));
+        // per-check staging files (merged into known_findings.json at integration time)
+        if let Ok(rd) = std::fs::read_dir(root.join("known_findings.d")) {
+            let mut ps: Vec<_> = rd.flatten().map(|e| e.path()).filter(|p| p.extension().map(|x| x == "json").unwrap_or(false)).collect();
+            ps.sort();
+            for p in ps {
+                findings.extend(load_findings(&p));
+            }
+        }
         Cx {
             property: property.to_string(),
             tier,
